@@ -166,6 +166,7 @@ func main() {
 		}
 		parseLine(r, sb.String())
 	}
+	trLeg(r) // tr.go: the translated functions against the real ones
 	for _, t := range []string{"", "0", "ffffffff", "100000000", "0x10", "-1", "+1", "1_0", "ABCDEF", "abcdef"} {
 		parseLine(r, t)
 	}
